@@ -53,6 +53,7 @@ type Engine struct {
 	ctorTypes   map[string]types.Type
 	jsonShapeHook func(x *Exec, v Term, g Term, i *ssa.Call)
 	scc         map[*ssa.Function]int
+	sliceTables map[*ssa.Global][]Term // package-level slices initialised from a composite literal
 }
 
 func (e *Engine) sameSCC(a, b *ssa.Function) bool {
@@ -405,8 +406,16 @@ func (x *Exec) globalCell(g *ssa.Global, st *State) *Cell {
 		c = x.newCell("G_"+g.Name(), s)
 		x.globals[g] = c
 		name := "G_" + sanitize(g.Pkg.Pkg.Name()) + "_" + sanitize(g.Name())
-		x.declareOnce(fmt.Sprintf("(declare-const %s %s)", name, s.Name))
-		x.globalInit[c] = Term{name, s}
+		if elems, ok := x.eng.sliceTables[g]; ok && s.Kind == KSlice {
+			arr := x.zero(s.Deps[0], nil)
+			for k, t := range elems {
+				arr = Store(arr, IntLit(int64(k)), t)
+			}
+			x.globalInit[c] = SlMk(s, IntLit(int64(len(elems))), arr)
+		} else {
+			x.declareOnce(fmt.Sprintf("(declare-const %s %s)", name, s.Name))
+			x.globalInit[c] = Term{name, s}
+		}
 	}
 	if _, live := st.cells[c]; !live {
 		st.cells[c] = x.globalInit[c]
@@ -422,6 +431,9 @@ func (x *Exec) globalCellIfAny(g *ssa.Global) *Cell {
 
 func (e *Engine) callees(f *ssa.Function) []*ssa.Function {
 	var out []*ssa.Function
+	if f.Pkg != nil && f.Pkg.Pkg.Path() == verifspecPath {
+		return nil // ghost vocabulary: quantifier bodies are accounted for at the call site
+	}
 	for _, b := range f.Blocks {
 		for _, in := range b.Instrs {
 			call, ok := in.(ssa.CallInstruction)
@@ -707,6 +719,9 @@ func (e *Engine) buildTables() {
 		}
 		maps := map[ssa.Value]*table{}
 		ok := map[ssa.Value]bool{}
+		arrays := map[ssa.Value]map[int64]Term{}
+		arrOK := map[ssa.Value]bool{}
+		sliceOf := map[ssa.Value]ssa.Value{}
 		for _, b := range init.Blocks {
 			for _, in := range b.Instrs {
 				switch i := in.(type) {
@@ -727,11 +742,52 @@ func (e *Engine) buildTables() {
 					}
 					t.keys = append(t.keys, k)
 					t.vals = append(t.vals, v)
+				case *ssa.Alloc:
+					if pt, isP := i.Type().(*types.Pointer); isP {
+						if _, isArr := pt.Elem().Underlying().(*types.Array); isArr {
+							arrays[i] = map[int64]Term{}
+							arrOK[i] = true
+						}
+					}
+				case *ssa.Slice:
+					if _, isArr := arrays[i.X]; isArr && i.Low == nil && i.High == nil {
+						sliceOf[i] = i.X
+					}
 				case *ssa.Store:
+					if ia, isIA := i.Addr.(*ssa.IndexAddr); isIA {
+						if arr, isArr := arrays[ia.X]; isArr {
+							c, isC := ia.Index.(*ssa.Const)
+							v, vok := e.staticTerm(i.Val)
+							if isC && vok {
+								arr[c.Int64()] = v
+							} else {
+								arrOK[ia.X] = false
+							}
+						}
+					}
 					if g, isG := i.Addr.(*ssa.Global); isG {
 						if t := maps[i.Val]; t != nil && ok[i.Val] {
 							t.g = g
 							e.tables[g] = t
+						}
+						if a, isSl := sliceOf[i.Val]; isSl && arrOK[a] {
+							n := a.Type().(*types.Pointer).Elem().Underlying().(*types.Array).Len()
+							var elems []Term
+							good := true
+							for k := int64(0); k < n; k++ {
+								t, has := arrays[a][k]
+								if !has {
+									good = false
+									break
+								}
+								elems = append(elems, t)
+							}
+							if good {
+								if e.sliceTables == nil {
+									e.sliceTables = map[*ssa.Global][]Term{}
+								}
+								e.sliceTables[g] = elems
+							}
 						}
 					}
 				}
